@@ -1,3 +1,4 @@
+From Coq Require Import NArith ZArith.
 From GoMC Require Import Base.Dec Model.C05 Model.C11 Model.C12.
 Require Import ExtrOcamlBasic.
 Extraction "c12_model.ml" run_flat pc_new pc_get pc_set set_fuel pc_write pc_read pc_with_data pc_sweep
